@@ -41,9 +41,17 @@ func pickI(r *wh.Rng, xs []int64) string { return i64(xs[r.Intn(len(xs))]) }
 // zones (seconds east of UTC) of the time.Time handed to delay.Until: +02:00, -05:00, +05:30, -00:30
 var zones = []int64{7200, -18000, 19800, -1800}
 
-// untilSpec: an offset, in half of the cases with a time that carries a non-UTC location
+// sentinel dates (unix seconds) outside the range of a time.Duration seen from now: 2400-01-01, 9999-12-31T00:00:00
+// (midnight, so that the local date in the zones used stays within year 9999, which RFC 3339 can write),
+// the zero time 0001-01-01, 1500-01-01; and two inside it: 2200-01-01, 1800-01-01
+var farDates = []int64{13569465600, 253402214400, -62135596800, -14831769600, 7258118400, -5364662400}
+
+// untilSpec: an offset from now or (1 in 4) an absolute far date, in half of the cases with a time that carries a non-UTC location
 func untilSpec(r *wh.Rng) string {
 	s := "u" + pickI(r, offs)
+	if r.Intn(4) == 0 {
+		s = "U" + pickI(r, farDates)
+	}
 	if r.Bool() {
 		s += "z" + pickI(r, zones)
 	}
